@@ -784,6 +784,21 @@ def concretize(x, limit=64):
             raise Inconclusive(f"concretize: more than {limit} feasible values for {z}")
 
 
+def _eval_int(c, z, m, extra=()):
+    """integer value of z in model m; when the model does not evaluate z to a numeral (division terms, partial models) the
+    value is asked for through a fresh integer constant"""
+    r = z3.simplify(m.eval(z, model_completion=True))
+    if z3.is_int_value(r):
+        return r.as_long()
+    k = z3.Int("__concretize_value")
+    r2, m2 = c.check(k == z, *extra)
+    if r2 == "sat":
+        r = m2.eval(k, model_completion=True)
+        if z3.is_int_value(r):
+            return r.as_long()
+    raise Inconclusive(f"concretize: no numeral for {z} in the solver's model")
+
+
 def _next_candidate(c, z):
     """Deterministic candidate: the minimal feasible value of z under the current pc (by bisection-free
     search: ask for a model, then tighten downwards)."""
@@ -792,13 +807,13 @@ def _next_candidate(c, z):
         if r == "unsat":
             raise PathAbort("infeasible")
         raise Inconclusive("unknown while concretizing")
-    v = m.eval(z, model_completion=True).as_long()
+    v = _eval_int(c, z, m)
     # minimise to make the candidate independent of solver nondeterminism
     steps = 0
     while True:
         r2, m2 = c.check(z < v)
         if r2 == "sat":
-            v = m2.eval(z, model_completion=True).as_long()
+            v = _eval_int(c, z, m2, (z < v,))
             steps += 1
             if steps > 200:
                 raise Inconclusive(f"concretize: value of {z} unbounded below")
